@@ -62,6 +62,10 @@ RenewOK(c, e) ==
            AsksExactly(c, ia.hints[i]) =>
              \E j \in Idx(a.pfx) : /\ a.pfx[j].b = ia.hints[i].b /\ a.pfx[j].len = ia.hints[i].len
                                    /\ StillValid(c, a.pfx[j], e.t1)
+      \* an IA_PD that only asks for held prefixes (and/or carries empty hints) consumes no further block:
+      \* "answered with P again instead of a different prefix", "retransmitting ... does not consume additional blocks"
+      /\ (ToldOf(c) # {} /\ \A i \in Idx(ia.hints) : ia.hints[i].nil \/ AsksExactly(c, ia.hints[i])) =>
+           PfxSet(a) \subseteq ToldOf(c) \cup UNION {PfxSet(e.ans[j]) : j \in 1..(k-1)}
       \* no hint at all: the held prefixes again (all of them somewhere in the reply),
       \* and no different prefix (prefixes an earlier IA_PD of this message got count as held)
       /\ (Hintless(ia) /\ ToldOf(c) # {}) =>
